@@ -155,36 +155,46 @@ Fixpoint scan_bin (s : text) (prev acc n : Z) : result (Z * Z * text) :=
   | [] => if prev =? 95 then Err ValueE else Ok (acc, n, [])
   end.
 
-Definition int2 (s : text) : result Z :=
-  let s := drop_cspace (map to_ascii s) in
-  let '(neg, s) :=
-    match s with
-    | c :: r => if c =? 43 then (false, r) else if c =? 45 then (true, r) else (false, s)
-    | [] => (false, [])
-    end in
-  (* optional "0b" / "0B" prefix, one "_" allowed after it *)
-  let s :=
-    match s with
-    | c0 :: c1 :: r =>
-      if (c0 =? 48) && ((c1 =? 98) || (c1 =? 66))
-      then match r with c2 :: r' => if c2 =? 95 then r' else r | [] => r end
-      else s
-    | _ => s
-    end in
+(* optional sign *)
+Definition split_sign (s : text) : bool * text :=
+  match s with
+  | c :: r => if c =? 43 then (false, r) else if c =? 45 then (true, r) else (false, s)
+  | [] => (false, [])
+  end.
+
+(* optional "0b" / "0B" prefix, one "_" allowed after it *)
+Definition skip_prefix (s : text) : text :=
+  match s with
+  | c0 :: c1 :: r =>
+    if (c0 =? 48) && ((c1 =? 98) || (c1 =? 66))
+    then match r with c2 :: r' => if c2 =? 95 then r' else r | [] => r end
+    else s
+  | _ => s
+  end.
+
+(* the digits: at least one, may not start with an underscore, only white space may follow *)
+Definition parse_bin (s : text) : result Z :=
   match s with
   | c :: _ =>
-    if c =? 95 then Err ValueE     (* may not start with an underscore *)
+    if c =? 95 then Err ValueE
     else
       match scan_bin s 0 0 0 with
       | Err e => Err e
       | Ok (v, n, rest) =>
         if n =? 0 then Err ValueE
         else match drop_cspace rest with
-             | [] => Ok (if neg then - v else v)
+             | [] => Ok v
              | _ => Err ValueE
              end
       end
   | [] => Err ValueE
+  end.
+
+Definition int2 (s : text) : result Z :=
+  let ns := split_sign (drop_cspace (map to_ascii s)) in
+  match parse_bin (skip_prefix (snd ns)) with
+  | Ok v => Ok (if fst ns then - v else v)
+  | Err e => Err e
   end.
 
 (* ------------------------------------------------------------------------------------------ *)
@@ -237,6 +247,25 @@ Definition write_bytes (linesep : text) (fmt : pyval) (data : bytes) : result ou
       end in
     Ok ([], formatted ++ linesep)
   else Err ValueE.
+
+(* a file that was written is read back: what went through .buffer is what .buffer.read() returns, what went
+   through .write() is what .read() returns *)
+Definition as_input (o : outfile) : infile := mkIn (fst o) (snd o).
+
+(* read g (write g (read f (write f data))) *)
+Definition reconvert (udec : Z -> option Z) (linesep : text) (f g : pyval) (data : bytes) : result bytes :=
+  match write_bytes linesep f data with
+  | Err e => Err e
+  | Ok o1 =>
+    match read_bytes udec f (as_input o1) with
+    | Err e => Err e
+    | Ok d1 =>
+      match write_bytes linesep g d1 with
+      | Err e => Err e
+      | Ok o2 => read_bytes udec g (as_input o2)
+      end
+    end
+  end.
 
 (* ------------------------------------------------------------------------------------------ *)
 (* dicts (lookup semantics only): association lists, the first binding of a key counts           *)
